@@ -352,9 +352,24 @@ Definition chk_C18 (c o : value) : bool :=
 
 (* ------------------------------------------------------------------ C19 (socket level) *)
 
-Definition chk_C19_sock (c o : value) : bool :=
+(* nothing is routed after the close: no headers-parsed notification (the server routes from it) and no middleware or
+   handler note once the transport has been closed *)
+(* [hdr]: the log records the headers-parsed notification at its emission (family sock); through the server wiring the
+   harness' own slot runs after the server's routing slot, so there only the notes of middleware and handlers are ordered *)
+Fixpoint no_route_after_close (hdr : bool) (l : list lev) (closed : bool) : bool :=
+  match l with
+  | [] => true
+  | LClose :: l' => no_route_after_close hdr l' true
+  | LHeaders _ :: l' => negb (hdr && closed) && no_route_after_close hdr l' closed
+  | LNote _ :: l' => negb closed && no_route_after_close hdr l' closed
+  | _ :: l' => no_route_after_close hdr l' closed
+  end.
+
+Definition chk_C19_gen (hdr : bool) (c o : value) : bool :=
   let l := dec_log o in
-  negb (existsb is_bad l) && Nat.leb (count is_headers l) 1 && no_tx_after_close l false.
+  negb (existsb is_bad l) && Nat.leb (count is_headers l) 1 && no_tx_after_close l false && no_route_after_close hdr l false.
+Definition chk_C19_sock (c o : value) : bool := chk_C19_gen true c o.
+Definition chk_C19_srv (c o : value) : bool := chk_C19_gen false c o.
 
 (* ------------------------------------------------------------------ C04 *)
 
